@@ -55,7 +55,11 @@ def regexes_for(rnd, mods):
     """(kind, pattern) drawn from the graph's own names."""
     names = [m for m in mods if m != "r"]
     m = rnd.choice(names)
-    k = rnd.choice(["anchored", "prefix", "alt", "class", "suffix", "with_subs", "nomatch", "leaf", "inner", "alt_ungrouped", "alt_ungrouped", "optional", "optional_mid", "plus", "dot_any", "icase", "lookahead", "unicode_class", "wild_alt", "wild_alt", "bare", "bare"])
+    k = rnd.choice(["anchored", "prefix", "alt", "class", "suffix", "with_subs", "nomatch", "leaf", "inner", "alt_ungrouped", "alt_ungrouped", "optional", "optional_mid", "plus", "dot_any", "icase", "lookahead", "unicode_class", "wild_alt", "wild_alt", "bare", "bare", "range_quantifier"])
+    if k == "range_quantifier":
+        # a quantifier with a comma: r\.a\.\w{1,40}$
+        p = m.rsplit(".", 1)
+        return k, re.escape(p[0]) + r"\.[^.]{1,40}$"
     if k == "bare":
         # just the (escaped) name of a module: matches every name that STARTS with it, prefix siblings included
         return k, re.escape(m)
@@ -120,7 +124,12 @@ def run_shard(spec, acc):
     warnings.simplefilter("ignore")
     for i in range(spec["n"]):
         mods = random_tree(rnd, 7, 13)
-        imps = random_imports(rnd, mods, k_max=12)
+        if i % 60 == 5:
+            # magnitudes: a package with 100-260 direct children, so that regexes / partial names expand to 100+ modules
+            big = rnd.choice([m for m in mods if m != "r"])
+            mods = mods + [f"{big}.n{k}" for k in range(rnd.choice([99, 101, 130, 260]))]
+            acc.count("architectures_with_100_or_more_siblings")
+        imps = random_imports(rnd, mods, k_max=12 if len(mods) < 50 else 60)
         ev = build(mods, imps)
         for _ in range(3):
             law_regex(rnd, ev, mods, imps, acc)
@@ -413,6 +422,8 @@ def replay(case, acc):
 
 def floors(acc, tier):
     why = []
+    if acc.counters["architectures_with_100_or_more_siblings"] < 10:
+        why.append("too few architectures with 100+ sibling modules")
     for c, n in (("law_regex_pairs", 2000), ("law_partial_pairs", 500), ("law_batch_subject_instances", 500), ("law_batch_object_instances", 500), ("unmatched_regex_cases", 50), ("partial_list_with_unmatched_member", 100)):
         if acc.counters[c] < n:
             why.append(f"{c}: only {acc.counters[c]}")
